@@ -120,6 +120,10 @@ def layer_cases(draw):
         "out": draw(st.integers(1, 9)),
         "oscale": draw(st.sampled_from([1.0, 1.0, 0.05, 3.0])),
         "batch": draw(st.lists(st.integers(1, 5), min_size=1, max_size=2)),
+        # how the weights became what they are: as built, or written in place into the already quantized module AFTER it has
+        # run (pruning / loading between two inferences); and whether the module was put in evaluation mode
+        "late": draw(st.sampled_from([0, 0, 1, 2])),
+        "eval": draw(st.booleans()),
     }
     if kind == "linear":
         c["inf"] = draw(st.sampled_from([1, 3, 7, 8, 16, 32, 33, 48, 64, 160, 256]))
@@ -159,11 +163,15 @@ def make_layer(case):
         w = torch.full(w.shape, 1.0 / max(1, w[0].numel()))
         w[::2] *= -1
         x = x.abs() * 3 + 1
+    late = None
+    if case.get("late") and p != "pooling":
+        late, w = w, torch.randn(w.shape, generator=g)
     with torch.no_grad():
         m.weight.copy_(w)
         if case["bias"]:
             m.bias.copy_(torch.randn(m.bias.shape, generator=g))
     model = torch.nn.Sequential(m).to(dtype)
+    model.late_weight = None if late is None else late.to(dtype)
     return model, x.to(dtype)
 
 
@@ -181,7 +189,7 @@ def _exec_layer(case):
     model, x = make_layer(case)
     tag = f"layer/{case['kind']}"
     out.klass = [case["kind"], case["pattern"], case["wq"], f"act-{case['aq']}", case["dtype"]]
-    out.fingerprint = [case[k] for k in ("kind", "dtype", "wq", "aq", "bias", "pattern", "inf", "out")]
+    out.fingerprint = [case[k] for k in ("kind", "dtype", "wq", "aq", "bias", "pattern", "inf", "out")] + [case.get("late", 0), case.get("eval", False)]
     out.nontrivial = case["pattern"] != "zeros" or case["aq"] != "none" or case["bias"]
     bias = model[0].bias.detach().clone() if case["bias"] else None
     r = cut(quantize, model, weights=wq, activations=aq)
@@ -190,6 +198,18 @@ def _exec_layer(case):
     qm = model[0]
     if aq is not None:
         qm.output_scale = torch.tensor(case["oscale"], dtype=qm.output_scale.dtype)
+    if case.get("eval"):
+        model.eval()
+    if model.late_weight is not None:
+        with torch.no_grad():
+            y = cut(model, x)
+            if isinstance(y, Raised):
+                return out.fail(f"{tag}/forward-raises:{y.type}", y.text)
+            if case["late"] == 1:
+                qm.weight.copy_(model.late_weight)
+            else:
+                qm.weight.data = model.late_weight.clone()
+        out.klass.append("weights-written-after-first-forward")
     with torch.no_grad():
         y = cut(model, x)
     if isinstance(y, Raised):
